@@ -470,4 +470,474 @@ theorem C06_nibbles_shiftKey_refines (k : NK) (h : k.WF) (offset : Nat) (ho : of
       refine ⟨⟨by simp; omega, fun hx => h2 (by simpa [he] using hx)⟩, trivial, by simp [he], ?_⟩
       simp [he, NK.abs]
 
+/-! ### `combineKey` -/
+
+/-- filling the padding nibble of the last byte -/
+theorem fill_pad (D : Bytes) (N : Nibs) (l e0 : UInt8) (hN : toNibs D = N ++ [0])
+    (hl : D.getLast? = some l) :
+    toNibs (D.dropLast ++ [l ||| padRight e0]) = N ++ [loNib e0] := by
+  have hD : D = D.dropLast ++ [l] := by
+    have hne : D ≠ [] := by intro e; rw [e] at hl; cases hl
+    have := List.dropLast_concat_getLast hne
+    rw [List.getLast?_eq_some_getLast hne] at hl
+    cases hl
+    exact this.symm
+  rw [hD, toNibs_append] at hN
+  simp only [toNibs, List.append_nil] at hN
+  have hN' : toNibs D.dropLast ++ [hiNib l] ++ [loNib l] = N ++ [0] := by simpa using hN
+  have h1 := List.append_inj_left' hN' rfl
+  have h2 := List.append_inj_right' hN' rfl
+  have hlo : loNib l = 0 := by simpa using h2
+  have hbyte : l ||| padRight e0 = byteOf (hiNib l) (loNib e0) := by
+    have : l = byteOf (hiNib l) 0 := by
+      conv => lhs; rw [← byteOf_hi_lo l, hlo]
+    rw [this, padRight, and0F, or_nv, hi_byteOf]
+  rw [toNibs_append, hbyte]
+  simp only [toNibs, hi_byteOf, lo_byteOf, List.append_nil]
+  rw [← h1]; simp
+
+theorem drop_append_of_le {α : Type} (a b : List α) (n : Nat) (h : n ≤ a.length) :
+    (a ++ b).drop n = a.drop n ++ b := by
+  rw [List.drop_append_of_le_length h]
+
+/-- `combineKey(start, end)` concatenates the two partial keys -/
+theorem C06_nibbles_combineKey_refines (s e : NK) (hs : s.WF) (he : e.WF) :
+    (combineKey s e).abs = s.abs ++ e.abs ∧ (combineKey s e).WF := by
+  have hso := nk_offset_le s hs
+  obtain ⟨he1, he2⟩ := he
+  unfold combineKey
+  simp only
+  by_cases h0 : e.offset = 0
+  · -- the end key is byte aligned: no shift, plain append
+    have hfin : (s.offset + e.offset) % 2 = s.offset := by have := hs.1; omega
+    obtain ⟨hw, _, _, hab⟩ := C06_nibbles_shiftKey_refines s hs ((s.offset + e.offset) % 2) (by omega)
+    have hne : ¬ e.offset > 0 := by omega
+    simp only [hne, if_false]
+    have hd : (s.shiftKey ((s.offset + e.offset) % 2)).1 = s := by
+      unfold NK.shiftKey; simp [hfin]
+    rw [hd]
+    refine ⟨?_, ⟨hs.1, fun h1 => ?_⟩⟩
+    · simp only [NK.abs, h0, toNibs_append, List.drop_zero]
+      exact drop_append_of_le _ _ _ hso
+    · intro e'
+      simp only at e'
+      have := List.append_eq_nil_iff.mp e'
+      exact hs.2 h1 this.1
+  · have h1 : e.offset = 1 := by omega
+    have hne : e.data ≠ [] := he2 h1
+    obtain ⟨e0, er, hed⟩ : ∃ e0 er, e.data = e0 :: er := by
+      cases hd : e.data with
+      | nil => exact absurd hd hne
+      | cons a r => exact ⟨a, r, rfl⟩
+    have hfin : (s.offset + e.offset) % 2 ≠ s.offset := by have := hs.1; omega
+    obtain ⟨hw, hoff, _, hab⟩ := C06_nibbles_shiftKey_refines s hs ((s.offset + e.offset) % 2) (by omega)
+    have hab' : (s.shiftKey ((s.offset + e.offset) % 2)).1.abs = s.abs ++ [0] := by
+      rw [hab, if_neg (fun x => hfin x.symm)]
+    generalize (s.shiftKey ((s.offset + e.offset) % 2)).1 = s1 at hw hoff hab'
+    have hgt : e.offset > 0 := by omega
+    simp only [hgt, if_true]
+    have hs1o := nk_offset_le s1 hw
+    -- the shifted data ends in the padding nibble
+    have hsplit : toNibs s1.data = (toNibs s1.data).take s1.offset ++ (s.abs ++ [0]) := by
+      rw [← hab', NK.abs, List.take_append_drop]
+    have hne1 : s1.data ≠ [] := by
+      intro e'
+      rw [e'] at hsplit
+      simp [toNibs] at hsplit
+    obtain ⟨l, hl⟩ : ∃ l, s1.data.getLast? = some l := ⟨_, List.getLast?_eq_some_getLast hne1⟩
+    have hfill := fill_pad s1.data ((toNibs s1.data).take s1.offset ++ s.abs) l e0
+      (by rw [List.append_assoc]; exact hsplit) hl
+    simp only [hl, hed, List.getD_cons_zero, List.drop_one, List.tail_cons]
+    refine ⟨?_, ⟨hw.1, fun _ => by simp⟩⟩
+    simp only [NK.abs, toNibs_append, hfill, h1, hed, toNibs, List.drop_succ_cons, List.drop_zero]
+    have hlen : s1.offset ≤ ((toNibs s1.data).take s1.offset).length := by
+      rw [List.length_take]; omega
+    rw [List.append_assoc, List.append_assoc, drop_append_of_le _ _ _ hlen]
+    have : ((toNibs s1.data).take s1.offset).drop s1.offset = [] := by
+      apply List.drop_eq_nil_of_le; rw [List.length_take]; omega
+    rw [this]
+    simp
+
+/-! ### `NodeKeyRange` -/
+
+theorem take_drop_comm {α : Type} (l : List α) (m j : Nat) : (l.take m).drop j = (l.drop j).take (m - j) := by
+  rw [List.drop_take]
+
+theorem toNibs_dropLast (D : Bytes) : toNibs D.dropLast = (toNibs D).take (2 * (D.length - 1)) := by
+  rw [List.dropLast_eq_take, toNibs_take]
+
+/-- `NodeKeyRange(nb)`: the first `nb` nibbles (all of them when `nb ≥ Len()`), as a well-formed key -/
+theorem C06_nibbles_nodeKeyRange_refines (n : PN) (h : n.WF) (nb : Nat) :
+    (n.nodeKeyRange nb).abs = n.abs.take nb := by
+  unfold PN.WF at h
+  have hlen := C06_nibbles_len_refines n
+  have habsl : n.abs.length = 2 * n.data.length - n.offset := by rw [← hlen]; rfl
+  unfold PN.nodeKeyRange
+  by_cases hge : nb ≥ n.len
+  · simp only [hge, if_true]
+    rw [(C06_nibbles_nodeKey_refines n).1, List.take_of_length_le (by omega)]
+  · simp only [hge, if_false]
+    have hlt : nb < 2 * n.data.length - n.offset := by simp [PN.len] at hge; omega
+    by_cases hal : (n.offset + nb) % 2 = 0
+    · simp only [hal, if_true, NK.abs]
+      rw [← toNibs_take, ← toNibs_drop, take_drop_comm, List.drop_drop]
+      unfold PN.abs
+      congr 1
+      · omega
+      · congr 1; omega
+    · simp only [hal, if_false]
+      -- the range ends inside a byte: take one byte more, shift, drop the last byte
+      have hwf : NK.WF (⟨n.offset % 2,
+          (n.data.drop (n.offset / 2)).take ((n.offset + nb) / 2 + 1 - n.offset / 2)⟩ : NK) := by
+        refine ⟨by simp; omega, fun _ => ?_⟩
+        intro e
+        have := congrArg List.length e
+        simp at this
+        omega
+      have hX : NK.abs (⟨n.offset % 2,
+          (n.data.drop (n.offset / 2)).take ((n.offset + nb) / 2 + 1 - n.offset / 2)⟩ : NK) =
+          n.abs.take (nb + 1) := by
+        simp only [NK.abs]
+        rw [← toNibs_take, ← toNibs_drop, take_drop_comm, List.drop_drop]
+        unfold PN.abs
+        congr 1
+        · omega
+        · congr 1; omega
+      obtain ⟨hw, hoff, _, hab⟩ := C06_nibbles_shiftKey_refines _ hwf (nb % 2) (by omega)
+      have hne : ¬ (n.offset % 2 = nb % 2) := by omega
+      simp only [hne, if_false, hX] at hab
+      generalize (NK.shiftKey (⟨n.offset % 2,
+          (n.data.drop (n.offset / 2)).take ((n.offset + nb) / 2 + 1 - n.offset / 2)⟩ : NK) (nb % 2)).1 = r
+        at hw hoff hab ⊢
+      simp only [NK.abs] at hab ⊢
+      -- lengths: r.offset + (nb + 2) nibbles fill r.data exactly
+      have hXl : (n.abs.take (nb + 1)).length = nb + 1 := by
+        rw [List.length_take]; omega
+      have htot : (toNibs r.data).length = r.offset + (nb + 2) := by
+        have := congrArg List.length hab
+        simp only [List.length_drop, List.length_append, hXl, List.length_singleton] at this
+        have hro := nk_offset_le r hw
+        omega
+      have hrl : 2 * r.data.length = r.offset + (nb + 2) := by rw [← length_toNibs]; exact htot
+      rw [toNibs_dropLast, take_drop_comm, hab]
+      have e3 : 2 * (r.data.length - 1) - r.offset = nb := by omega
+      rw [e3, List.take_append_of_le_length (by omega), List.take_take]
+      simp
+
+/-! ### `NibbleSlice` -/
+
+/-- the nibbles of a `NibbleSlice` -/
+def NS.abs (n : NS) : Nibs := (toNibs n.inner).take n.len
+
+def NS.pad (n : NS) : Nibs := if n.len % 2 = 1 then [0] else []
+
+/-- `inner` holds exactly the nibbles, an odd count padded with one zero nibble -/
+def NS.WF (n : NS) : Prop := n.len ≤ 2 * n.inner.length ∧ toNibs n.inner = n.abs ++ n.pad
+
+theorem NS.abs_length (n : NS) (h : n.WF) : n.abs.length = n.len := by
+  have := h.1
+  simp [NS.abs, length_toNibs]; omega
+
+theorem NS.inner_length (n : NS) (h : n.WF) : 2 * n.inner.length = n.len + n.len % 2 := by
+  have := congrArg List.length h.2
+  rw [length_toNibs, List.length_append, NS.abs_length n h] at this
+  unfold NS.pad at this
+  split at this <;> simp at this <;> omega
+
+theorem fill_pad' (D : Bytes) (N : Nibs) (l : UInt8) (y : Nib) (hN : toNibs D = N ++ [0])
+    (hl : D.getLast? = some l) : toNibs (D.dropLast ++ [l ||| nv y]) = N ++ [y] := by
+  have := fill_pad D N l (nv y) hN hl
+  have e1 : padRight (nv y) = nv y := by rw [padRight, and0F]; congr 1; rw [nv_eq, lo_byteOf]
+  have e2 : loNib (nv y) = y := by rw [nv_eq, lo_byteOf]
+  rw [e1, e2] at this
+  exact this
+
+theorem zero_or (b : UInt8) : (0 : UInt8) ||| b = b := by simp
+
+theorem C06_nibbles_nsEmpty : NS.empty.WF ∧ NS.empty.abs = [] := by
+  refine ⟨⟨by simp [NS.empty], ?_⟩, ?_⟩ <;> simp [NS.empty, NS.abs, NS.pad, toNibs]
+
+/-- `Push(nibble)` -/
+theorem C06_nibbles_push_refines (n : NS) (h : n.WF) (x : Nib) :
+    (n.push (nv x)).abs = n.abs ++ [x] ∧ (n.push (nv x)).WF := by
+  have hal := NS.abs_length n h
+  have hil := NS.inner_length n h
+  obtain ⟨h1, h2⟩ := h
+  by_cases hp : n.len % 2 = 0
+  · have hpad : n.pad = [] := by simp [NS.pad, hp]
+    rw [hpad, List.append_nil] at h2
+    have hpush : n.push (nv x) = { inner := n.inner ++ [byteOf x 0], len := n.len + 1 } := by
+      simp [NS.push, hp, pushAtLeft, nv_shl]
+    rw [hpush]
+    have ht : toNibs (n.inner ++ [byteOf x 0]) = (n.abs ++ [x]) ++ [0] := by
+      rw [toNibs_append, h2]; simp [toNibs, hi_byteOf, lo_byteOf]
+    have habs : NS.abs { inner := n.inner ++ [byteOf x 0], len := n.len + 1 } = n.abs ++ [x] := by
+      show List.take (n.len + 1) (toNibs (n.inner ++ [byteOf x 0])) = n.abs ++ [x]
+      rw [ht]
+      exact List.take_left' (by rw [List.length_append, hal]; rfl)
+    refine ⟨habs, ⟨by simp; omega, ?_⟩⟩
+    have hodd : (n.len + 1) % 2 = 1 := by omega
+    rw [habs]
+    simp only [NS.pad, hodd, if_true]
+    exact ht
+  · have hodd : n.len % 2 = 1 := by omega
+    have hpad : n.pad = [0] := by simp [NS.pad, hodd]
+    rw [hpad] at h2
+    have hne : n.inner ≠ [] := by intro e; rw [e] at h2; simp [toNibs] at h2
+    obtain ⟨l, hl⟩ : ∃ l, n.inner.getLast? = some l := ⟨_, List.getLast?_eq_some_getLast hne⟩
+    have hpush : n.push (nv x) = { inner := n.inner.dropLast ++ [l ||| nv x], len := n.len + 1 } := by
+      simp [NS.push, hp, pushAtLeft, hl, NS.setLast]
+    rw [hpush]
+    have ht := fill_pad' n.inner n.abs l x h2 hl
+    have hlen : (n.inner.dropLast ++ [l ||| nv x]).length = n.inner.length := by
+      simp [List.length_dropLast]; omega
+    have habs : NS.abs { inner := n.inner.dropLast ++ [l ||| nv x], len := n.len + 1 } = n.abs ++ [x] := by
+      show List.take (n.len + 1) (toNibs (n.inner.dropLast ++ [l ||| nv x])) = n.abs ++ [x]
+      rw [ht]
+      exact List.take_of_length_le (by rw [List.length_append, hal]; simp)
+    refine ⟨habs, ⟨by simp only [hlen]; omega, ?_⟩⟩
+    have hev : ¬ (n.len + 1) % 2 = 1 := by omega
+    rw [habs]
+    simp only [NS.pad, hev, if_false, List.append_nil]
+    exact ht
+
+/-- `Prefix()`: the database-key prefix of the path accumulated in the slice -/
+theorem C06_nibbles_nsPrefix_refines (n : NS) (h : n.WF) :
+    n.pfx.abs = n.abs ∧ n.pfx.joined = prefixBytes n.abs := by
+  have hil := NS.inner_length n h
+  unfold NS.pfx
+  by_cases hp : n.len % 2 = 0
+  · have hl : n.len = 2 * (n.len / 2) := by omega
+    simp only [hp, if_true, PFX.abs, PFX.joined, List.append_nil]
+    have : n.abs = toNibs (n.inner.take (n.len / 2)) := by
+      unfold NS.abs; rw [← toNibs_take, ← hl]
+    rw [this, prefixBytes_toNibs]
+    simp
+  · obtain ⟨s, hs⟩ : ∃ s, n.len = 2 * s + 1 := ⟨n.len / 2, by omega⟩
+    have hdiv : n.len / 2 = s := by omega
+    have hlt : s < n.inner.length := by omega
+    simp only [hp, if_false, PFX.abs, PFX.joined, hdiv]
+    have h1 : padLeft (n.inner.getD s 0) = byteOf (hiNib (n.inner.getD s 0)) 0 := andF0 _
+    have : n.abs = toNibs (n.inner.take s) ++ [hiNib (n.inner.getD s 0)] := by
+      unfold NS.abs; rw [hs, toNibs_take_odd _ _ hlt]
+    rw [h1, hi_byteOf, this, prefixBytes_snoc]
+    simp
+
+/-- `DropLasts(num)` -/
+theorem C06_nibbles_dropLasts_refines (n : NS) (h : n.WF) (num : Nat) :
+    (n.dropLasts num).abs = n.abs.take (n.len - num) ∧ (n.dropLasts num).WF := by
+  have hal := NS.abs_length n h
+  have hil := NS.inner_length n h
+  by_cases h0 : num = 0
+  · subst h0
+    have : n.dropLasts 0 = n := by simp [NS.dropLasts]
+    rw [this]
+    exact ⟨by rw [List.take_of_length_le (by omega)], h⟩
+  · by_cases hge : num ≥ n.len
+    · have hd : n.dropLasts num = NS.empty := by simp [NS.dropLasts, h0, hge]
+      have : n.len - num = 0 := by omega
+      rw [hd, this]
+      exact ⟨by simp [C06_nibbles_nsEmpty.2], C06_nibbles_nsEmpty.1⟩
+    · have hle : n.len - num ≤ n.len := by omega
+      have hmin : n.abs.take (n.len - num) = (toNibs n.inner).take (n.len - num) := by
+        unfold NS.abs; rw [List.take_take]; congr 1; omega
+      rw [hmin]
+      by_cases hp : (n.len - num) % 2 = 0
+      · obtain ⟨m, hm⟩ : ∃ m, n.len - num = 2 * m := ⟨(n.len - num) / 2, by omega⟩
+        have hdiv : (n.len - num) / 2 = m := by omega
+        have hmi : m ≤ n.inner.length := by omega
+        have hd : n.dropLasts num = { inner := n.inner.take m, len := n.len - num } := by
+          simp [NS.dropLasts, h0, hge, hp, hdiv]
+        rw [hd]
+        have ht : toNibs (n.inner.take m) = (toNibs n.inner).take (n.len - num) := by
+          rw [hm, toNibs_take]
+        have habs : NS.abs { inner := n.inner.take m, len := n.len - num } =
+            (toNibs n.inner).take (n.len - num) := by
+          simp only [NS.abs, ht, List.take_take]; simp
+        refine ⟨habs, ⟨by simp; omega, ?_⟩⟩
+        rw [habs]
+        simp only [NS.pad, hp]
+        simpa using ht
+      · obtain ⟨m, hm⟩ : ∃ m, n.len - num = 2 * m + 1 := ⟨(n.len - num) / 2, by omega⟩
+        have hdiv : (n.len - num) / 2 = m := by omega
+        have hmi : m < n.inner.length := by omega
+        have hodd : (n.len - num) % 2 = 1 := by omega
+        have hlast : (n.inner.take (m + 1)).getLast? = some (n.inner.getD m 0) := by
+          rw [List.getLast?_eq_getElem?]
+          simp [List.length_take, Nat.min_eq_left (Nat.succ_le_of_lt hmi), List.getElem?_take, hmi]
+        have hdl : (n.inner.take (m + 1)).dropLast = n.inner.take m := by
+          rw [List.dropLast_eq_take, List.take_take]
+          simp [List.length_take, Nat.min_eq_left (Nat.succ_le_of_lt hmi)]
+        have hd : n.dropLasts num =
+            { inner := n.inner.take m ++ [padLeft (n.inner.getD m 0)], len := n.len - num } := by
+          simp [NS.dropLasts, h0, hge, hp, hodd, hdiv, NS.setLast, hlast, hdl]
+        rw [hd]
+        have ht : toNibs (n.inner.take m ++ [padLeft (n.inner.getD m 0)]) =
+            (toNibs n.inner).take (n.len - num) ++ [0] := by
+          rw [hm, toNibs_take_odd _ _ hmi, toNibs_append, padLeft, andF0]
+          simp [toNibs, hi_byteOf, lo_byteOf]
+        have hlen' : ((toNibs n.inner).take (n.len - num)).length = n.len - num := by
+          rw [List.length_take, length_toNibs]; omega
+        have habs : NS.abs { inner := n.inner.take m ++ [padLeft (n.inner.getD m 0)], len := n.len - num } =
+            (toNibs n.inner).take (n.len - num) := by
+          show List.take (n.len - num) (toNibs (n.inner.take m ++ [padLeft (n.inner.getD m 0)])) = _
+          rw [ht]
+          exact List.take_left' hlen'
+        refine ⟨habs, ⟨by simp [List.length_take]; omega, ?_⟩⟩
+        rw [habs]
+        simp only [NS.pad, hodd, if_true]
+        exact ht
+
+/-! ### `AppendPartial`, `AppendOptionalSliceAndNibble` -/
+
+/-- the data stage of `AppendPartial` -/
+def NS.appendData (n : NS) (D : Bytes) : NS :=
+  { inner :=
+      if 2 * n.inner.length - n.len = 0 then n.inner ++ D
+      else
+        match D with
+        | [] => n.inner
+        | d0 :: _ => NS.setLast n.inner (padLeft (n.inner.getLast?.getD 0) ||| d0 >>> 4) ++ NS.shiftedTail D
+    len := n.len + 2 * D.length }
+
+theorem appendPartial_eq (n : NS) (p : Partial) :
+    n.appendPartial p = (if p.first = 1 then n.push (atLeft 1 p.paddedNibble) else n).appendData p.data := rfl
+
+theorem shiftedTail_eq : ∀ D : Bytes, NS.shiftedTail D = shiftLeft D
+  | [] => rfl
+  | [a] => rfl
+  | a :: b :: r => by simp [NS.shiftedTail, shiftLeft, shiftedTail_eq (b :: r)]
+
+theorem last_split (D : Bytes) (N : Nibs) (l : UInt8) (hN : toNibs D = N ++ [0])
+    (hl : D.getLast? = some l) : toNibs D.dropLast ++ [hiNib l] = N ∧ loNib l = 0 := by
+  have hne : D ≠ [] := by intro e; rw [e] at hl; cases hl
+  have hD : D = D.dropLast ++ [l] := by
+    have := List.dropLast_concat_getLast hne
+    rw [List.getLast?_eq_some_getLast hne] at hl
+    cases hl
+    exact this.symm
+  rw [hD, toNibs_append] at hN
+  simp only [toNibs, List.append_nil] at hN
+  have hN' : toNibs D.dropLast ++ [hiNib l] ++ [loNib l] = N ++ [0] := by simpa using hN
+  exact ⟨List.append_inj_left' hN' rfl, by simpa using List.append_inj_right' hN' rfl⟩
+
+theorem appendData_refines (n : NS) (h : n.WF) (D : Bytes) :
+    (n.appendData D).abs = n.abs ++ toNibs D ∧ (n.appendData D).WF := by
+  have hal := NS.abs_length n h
+  have hil := NS.inner_length n h
+  obtain ⟨h1, h2⟩ := h
+  by_cases hp : n.len % 2 = 0
+  · have hpad : n.pad = [] := by simp [NS.pad, hp]
+    rw [hpad, List.append_nil] at h2
+    have h0 : 2 * n.inner.length - n.len = 0 := by omega
+    have hd : n.appendData D = { inner := n.inner ++ D, len := n.len + 2 * D.length } := by
+      simp [NS.appendData, h0]
+    rw [hd]
+    have ht : toNibs (n.inner ++ D) = n.abs ++ toNibs D := by rw [toNibs_append, h2]
+    have habs : NS.abs { inner := n.inner ++ D, len := n.len + 2 * D.length } = n.abs ++ toNibs D := by
+      show List.take (n.len + 2 * D.length) (toNibs (n.inner ++ D)) = _
+      rw [ht]
+      exact List.take_of_length_le (by rw [List.length_append, hal, length_toNibs]; omega)
+    refine ⟨habs, ⟨by simp; omega, ?_⟩⟩
+    have hev : ¬ (n.len + 2 * D.length) % 2 = 1 := by omega
+    rw [habs]
+    simp only [NS.pad, hev, if_false, List.append_nil]
+    exact ht
+  · have hodd : n.len % 2 = 1 := by omega
+    have hpad : n.pad = [0] := by simp [NS.pad, hodd]
+    rw [hpad] at h2
+    have h0 : ¬ 2 * n.inner.length - n.len = 0 := by omega
+    cases D with
+    | nil =>
+      have hd : n.appendData [] = n := by simp [NS.appendData, h0]
+      rw [hd]
+      exact ⟨by simp [toNibs], ⟨h1, by rw [hpad]; exact h2⟩⟩
+    | cons d0 r =>
+      have hne : n.inner ≠ [] := by intro e; rw [e] at h2; simp [toNibs] at h2
+      obtain ⟨l, hl⟩ : ∃ l, n.inner.getLast? = some l := ⟨_, List.getLast?_eq_some_getLast hne⟩
+      obtain ⟨hs1, hs2⟩ := last_split n.inner n.abs l h2 hl
+      have hd : n.appendData (d0 :: r) =
+          (⟨(n.inner.dropLast ++ [padLeft l ||| d0 >>> 4]) ++ shiftLeft (d0 :: r),
+            n.len + 2 * (d0 :: r).length⟩ : NS) := by
+        simp [NS.appendData, h0, hl, NS.setLast, shiftedTail_eq]
+      rw [hd]
+      have hbyte : padLeft l ||| d0 >>> 4 = byteOf (hiNib l) (hiNib d0) := by
+        rw [padLeft, andF0, shr4', or_nibs]
+      have ht : toNibs ((n.inner.dropLast ++ [padLeft l ||| d0 >>> 4]) ++ shiftLeft (d0 :: r)) =
+          (n.abs ++ toNibs (d0 :: r)) ++ [0] := by
+        rw [toNibs_append, toNibs_append, hbyte, toNibs_shiftLeft (d0 :: r) (by simp)]
+        simp only [toNibs, hi_byteOf, lo_byteOf, List.append_nil, List.drop_succ_cons, List.drop_zero]
+        rw [← hs1]
+        simp
+      have habs : NS.abs (⟨(n.inner.dropLast ++ [padLeft l ||| d0 >>> 4]) ++ shiftLeft (d0 :: r),
+          n.len + 2 * (d0 :: r).length⟩ : NS) = n.abs ++ toNibs (d0 :: r) := by
+        show List.take (n.len + 2 * (d0 :: r).length) (toNibs _) = _
+        rw [ht]
+        exact List.take_left' (by rw [List.length_append, hal, length_toNibs])
+      have hlen : 2 * ((n.inner.dropLast ++ [padLeft l ||| d0 >>> 4]) ++ shiftLeft (d0 :: r)).length =
+          n.len + 2 * (d0 :: r).length + 1 := by
+        have := congrArg List.length ht
+        rw [length_toNibs] at this
+        rw [this]
+        simp only [List.length_append, hal, length_toNibs, List.length_singleton]
+      refine ⟨habs, ⟨by
+        show n.len + 2 * (d0 :: r).length ≤
+          2 * ((n.inner.dropLast ++ [padLeft l ||| d0 >>> 4]) ++ shiftLeft (d0 :: r)).length
+        omega, ?_⟩⟩
+      have hod : (n.len + 2 * (d0 :: r).length) % 2 = 1 := by omega
+      rw [habs]
+      simp only [NS.pad, hod, if_true]
+      exact ht
+
+/-- `AppendPartial(s.RightPartial())` appends the nibbles of `s` -/
+theorem C06_nibbles_appendPartial_refines (n : NS) (h : n.WF) (s : PN) (hs : s.WF) :
+    (n.appendPartial s.rightPartial).abs = n.abs ++ s.abs ∧ (n.appendPartial s.rightPartial).WF := by
+  unfold PN.WF at hs
+  rw [appendPartial_eq]
+  unfold PN.rightPartial
+  simp only
+  by_cases hp : s.offset % 2 = 0
+  · have hl : s.len % 2 = 0 := by simp [PN.len]; omega
+    have hab : s.abs = toNibs (s.data.drop (s.offset / 2)) := by
+      unfold PN.abs; rw [← toNibs_drop]; congr 1; omega
+    simp only [hl, Nat.lt_irrefl, if_false, Nat.zero_ne_one]
+    rw [hab]
+    exact appendData_refines n h _
+  · obtain ⟨t, ht⟩ : ∃ t, s.offset = 2 * t + 1 := ⟨s.offset / 2, by omega⟩
+    have hdiv : s.offset / 2 = t := by omega
+    have hlt : t < s.data.length := by omega
+    have hl : s.len % 2 = 1 := by simp [PN.len]; omega
+    have hab : s.abs = loNib (s.data.getD t 0) :: toNibs (s.data.drop (t + 1)) := by
+      unfold PN.abs; rw [ht, drop_odd _ _ hlt]
+    simp only [hl, Nat.lt_one_iff, Nat.one_pos, if_true, hdiv, atLeft, and0F]
+    obtain ⟨hp1, hp2⟩ := C06_nibbles_push_refines n h (loNib (s.data.getD t 0))
+    obtain ⟨ha1, ha2⟩ := appendData_refines _ hp2 (s.data.drop (t + 1))
+    rw [hab]
+    refine ⟨?_, ha2⟩
+    rw [ha1, hp1]; simp
+
+/-- `AppendOptionalSliceAndNibble(slice, index)`: the path grows by the partial key and the child
+    index; the count returned is the number of nibbles added -/
+theorem C06_nibbles_appendOpt_refines (n : NS) (h : n.WF) (s : Option PN) (hs : ∀ x, s = some x → x.WF)
+    (i : Option Nib) :
+    (n.appendOpt s (i.map nv)).1.abs =
+      n.abs ++ (match s with | some x => x.abs | none => []) ++ (match i with | some y => [y] | none => []) ∧
+    (n.appendOpt s (i.map nv)).1.WF ∧
+    (n.appendOpt s (i.map nv)).2 =
+      (match s with | some x => x.abs.length | none => 0) + (match i with | some _ => 1 | none => 0) := by
+  cases s with
+  | none =>
+    cases i with
+    | none => simp [NS.appendOpt, h]
+    | some y =>
+      obtain ⟨h1, h2⟩ := C06_nibbles_push_refines n h y
+      simp [NS.appendOpt, h1, h2]
+  | some x =>
+    obtain ⟨a1, a2⟩ := C06_nibbles_appendPartial_refines n h x (hs x rfl)
+    cases i with
+    | none => simp [NS.appendOpt, a1, a2, C06_nibbles_len_refines]
+    | some y =>
+      obtain ⟨h1, h2⟩ := C06_nibbles_push_refines _ a2 y
+      simp [NS.appendOpt, h1, h2, a1, C06_nibbles_len_refines]
+
 end Gossamer.C06.Nb
